@@ -28,7 +28,7 @@ Fresh(e) ==
      fs |-> [ents |-> e.snap.ents, inos |-> e.snap.inos],
      fds |-> <<>>, dirty |-> {}, syncfail |-> {}, pubs |-> <<>>, supplied |-> {}, planted |-> {},
      cur |-> <<>>, steps |-> <<>>, listed |-> <<>>, tlisted |-> <<>>, created |-> <<>>, opfds |-> <<>>, opens |-> <<>>,
-     faulted |-> <<>>, faultcall |-> <<>>, unlinkfailed |-> <<>>, prune |-> <<>>, lastset |-> <<>>, lastok |-> <<>>, maybeset |-> <<>>, lastret |-> <<>>, absmap |-> <<>>, atcall |-> <<>>, pruned |-> <<>>,
+     faulted |-> <<>>, faultcall |-> <<>>, unlinkfailed |-> <<>>, prune |-> <<>>, lastset |-> <<>>, lastok |-> <<>>, maybeset |-> <<>>, lastret |-> <<>>, absmap |-> <<>>, atcall |-> <<>>, pruned |-> <<>>, plisted |-> <<>>, tattempt |-> <<>>,
      viol |-> {}, fsmis |-> {}, nsys |-> 0]
 
 InitSt == Fresh([job |-> "", run |-> 0, gran |-> 0, atime |-> "relatime", snap |-> EmptyFS])
@@ -59,8 +59,9 @@ InLib(e) == e.ph \in {"lib", "cb"}
 SysStep(s, e) ==
     LET sn == IF Has(e, "snap") THEN e.snap ELSE Obs(s.fs)
         m == Eff(s.fs, e, sn, s.gran)
-        predok == PredOK(s.fs, e, FALSE)
-        effok == Obs(m) = sn
+        \* (PosixFS has no symbolic links: the call that plants one -- a world-building step -- is taken from the snapshot)
+        predok == e.call = "symlink" \/ PredOK(s.fs, e, FALSE)
+        effok == e.call = "symlink" \/ Obs(m) = sn
         fds2 == FdsAfter(s, e)
         fs2 == Resync(m, sn, fds2)
         p == e.p
@@ -78,6 +79,10 @@ SysStep(s, e) ==
         listed2 == IF InLib(e) /\ e.call = "getdents" /\ e.res = "ok" THEN Put(s.listed, p, Get(s.listed, p, 0) + Len(e.names)) ELSE s.listed
         tlisted2 == IF InLib(e) /\ e.call = "getdents" /\ e.res = "ok" /\ Has(e, "fdpath") /\ IsKismetTemp(s.cfg, DirId(e.fdpath))
                     THEN Put(s.tlisted, p, Get(s.tlisted, p, {}) \cup {DirId(e.fdpath)}) ELSE s.tlisted
+        plisted2 == IF InLib(e) /\ e.call = "getdents" /\ e.res = "ok" /\ Has(e, "fdpath") /\ IsCacheDir(s.cfg, DirId(e.fdpath))
+                    THEN Put(s.plisted, p, Get(s.plisted, p, {}) \cup {DirId(e.fdpath)}) ELSE s.plisted
+        tattempt2 == IF InLib(e) /\ e.call = "open" /\ Has(e, "path") /\ "DIRECTORY" \in FlagSet(e) /\ IsKismetTemp(s.cfg, DirId(e.path))
+                     THEN Put(s.tattempt, p, Get(s.tattempt, p, {}) \cup {DirId(e.path)}) ELSE s.tattempt
         opfds2 == IF InLib(e) /\ e.call = "open" /\ e.res = "ok" THEN Put(s.opfds, p, Get(s.opfds, p, {}) \cup {e.fd})
                   ELSE IF e.call = "close" THEN Put(s.opfds, p, Get(s.opfds, p, {}) \ {e.fd}) ELSE s.opfds
         opens2 == IF InLib(e) /\ e.call = "open" /\ ~Outside(e.path)
@@ -88,7 +93,12 @@ SysStep(s, e) ==
         unlinkfailed2 == IF e.call = "unlink" /\ e.res \notin {"ok", "ENOENT"} /\ tgt \notin {"NONE", "DIR"}
                          THEN Put(s.unlinkfailed, p, Get(s.unlinkfailed, p, {}) \cup {tgt}) ELSE s.unlinkfailed
         prune2 == IF InLib(e) /\ e.call = "open" /\ e.res = "ok" /\ Has(e, "isdir") /\ IsCacheDir(s.cfg, DirId(e.path))
-                  THEN Put(s.prune, p, [d |-> DirId(e.path), fs |-> s.fs, fd |-> e.fd, van |-> {}]) ELSE s.prune
+                  THEN Put(s.prune, p, [d |-> DirId(e.path), fs |-> s.fs, fd |-> e.fd, van |-> {}, rs |-> {}])
+                  \* a re-stamp (modification time set) of an entry of the directory under maintenance
+                  ELSE IF InLib(e) /\ e.call = "utimens" /\ e.res = "ok" /\ Has(e, "mtk") /\ e.mtk = "set" /\ Has(e, "fdpath") /\ p \in DOMAIN s.prune
+                          /\ e.fdpath.d = s.prune[p].d
+                  THEN Put(s.prune, p, [s.prune[p] EXCEPT !.rs = @ \cup {e.fdpath.n}])
+                  ELSE s.prune
         pruned2 == IF InLib(e) /\ e.call = "open" /\ e.res = "ok" /\ Has(e, "isdir") /\ IsCacheDir(s.cfg, DirId(e.path))
                    THEN Put(s.pruned, p, TRUE) ELSE s.pruned
         \* an eviction (or any removal of a key-named entry by the library) takes the key out of the abstract map
@@ -102,7 +112,7 @@ SysStep(s, e) ==
                  !.pubs = NewPubs(s.cfg, fs2, s.pubs), !.created = created2, !.planted = planted2,
                  !.steps = steps2, !.listed = listed2, !.tlisted = tlisted2, !.opfds = opfds2, !.opens = opens2,
                  !.faulted = faulted2, !.faultcall = faultcall2, !.unlinkfailed = unlinkfailed2, !.supplied = supplied2,
-                 !.prune = prune2, !.pruned = pruned2, !.absmap = absmap2, !.nsys = @ + 1,
+                 !.prune = prune2, !.pruned = pruned2, !.plisted = plisted2, !.tattempt = tattempt2, !.absmap = absmap2, !.nsys = @ + 1,
                  !.fsmis = @ \cup (IF predok THEN {} ELSE {<<e.seq, "pred">>}) \cup (IF effok THEN {} ELSE {<<e.seq, "eff">>})]
 
 ExtStep(s, e) ==    \* crash / age / adversary / mark: trust the snapshot
@@ -120,7 +130,7 @@ CallStep(s, e) ==
     LET p == e.p IN
     [s EXCEPT !.cur = Put(@, p, e), !.steps = Put(@, p, 0), !.listed = Put(@, p, 0), !.tlisted = Put(@, p, {}),
               !.created = Put(@, p, {}), !.opfds = Put(@, p, {}), !.opens = Put(@, p, <<>>),
-              !.unlinkfailed = Put(@, p, {}), !.atcall = Put(@, p, s.fs), !.pruned = Put(@, p, FALSE),
+              !.unlinkfailed = Put(@, p, {}), !.atcall = Put(@, p, s.fs), !.pruned = Put(@, p, FALSE), !.plisted = Put(@, p, {}), !.tattempt = Put(@, p, {}),
               !.supplied = @ \cup (IF Has(e, "val") /\ Has(e, "key") THEN {<<e.key, e.val>>} ELSE {})]
 
 GoneStep(s, e) == [s EXCEPT !.fds = Del(@, e.p)]
@@ -148,8 +158,13 @@ RetStep(s, e) ==
                                                        /\ ~(e.p \in DOMAIN s.faulted /\ s.faulted[e.p] = e.opi))
         IN
         IF isset /\ e.ok THEN [s1 EXCEPT !.lastset = Put(@, k, v), !.maybeset = Put(@, k, {})]
-        \* a failed set, or an insert-if-absent (put / ensure / promote), may or may not have stored its value
-        ELSE [s1 EXCEPT !.maybeset = Put(@, k, Get(@, k, {}) \cup {v})]
+        \* a failed set may or may not have stored its value
+        \* (so may a replace that was hit by a fault: it replaced, or -- having taken the miss path -- did not)
+        ELSE IF e.api \in {"set", "set_tf"} \/ (e.api = "gou" /\ Has(s.cur[e.p], "judge") /\ s.cur[e.p].judge = "replace")
+             THEN [s1 EXCEPT !.maybeset = Put(@, k, Get(@, k, {}) \cup {v})]
+        \* an insert-if-absent (put / ensure / promote / a faulted replace) may have stored its value only if the key was free when it began
+        ELSE IF e.p \in DOMAIN s.atcall /\ k \notin PresentKeys(s.cfg, s.atcall[e.p]) THEN [s1 EXCEPT !.maybeset = Put(@, k, Get(@, k, {}) \cup {v})]
+        ELSE s1
     ELSE s1
 
 Step(s, e) ==
@@ -176,7 +191,7 @@ Violations(s, e, s2) ==
     (IF stateChanged THEN Mon("DirValid", DirValid(cfg, s2)) \cup Mon("DebrisConfined", DebrisConfined(cfg, s2)) ELSE {})
     \cup (IF e.e = "obs" THEN Mon("HandleContentOK", HandleContentOK(s, e)) \cup Mon("HandleModeOK", HandleModeOK(s, e))
                                \cup Mon("ReadsLastSet", ReadsLastSet(s, e)) \cup Mon("StackOK", StackOK(cfg, s, e))
-                               \cup Mon("SeqMapOK", SeqMapOK(cfg, s, e)) ELSE {})
+                               \cup Mon("SeqMapOK", SeqMapOK(cfg, s, e)) \cup Mon("ReplaceOwn", ReplaceOwn(s, e)) ELSE {})
     \cup (IF isSys \/ e.e \in {"crash", "age", "advdel"} THEN
               Mon("Immutable", ImmutableStep(s, e, s2)) \cup Mon("ROUntouched", ROUntouched(cfg, s, e, s2))
               \cup Mon("DotFilesUntouched", DotFilesUntouched(cfg, s, e, s2))
@@ -204,6 +219,7 @@ Violations(s, e, s2) ==
                    van == s.prune[e.p].van
                IN Mon("PruneOK", IF van = {} THEN PruneOK(s.prune[e.p].fs, s2.fs, s.prune[e.p].d, capd)
                                  ELSE PruneOKV(s.prune[e.p].fs, s2.fs, s.prune[e.p].d, capd, CHOOSE v \in van : TRUE))
+                  \cup Mon("ReprieveUnmarks", ReprieveUnmarks(s.prune[e.p].fs, s2.fs, s.prune[e.p].d, s.prune[e.p].rs))
           ELSE {})
     \cup (IF e.e = "stuck" THEN Mon("SoloCompletes", FALSE) ELSE {})
 
